@@ -9,7 +9,7 @@
  *   mnp K NAME HEX|-    the same for an NPD file
  *       K > 0: the K-th request of the parser for one of its own buffers fails (NULL, errno = ENOMEM)
  *       the destination was initialised as a 3 x 3 Z object with 2 frequencies (7 Hz, 9 Hz)
- *     -> MEM rc errno | REQ n | FREED s,s,s | LIVE n | MAX n | DEST type rows cols freqs filetype
+ *     -> MEM rc errno | REQ n | FREED s,s,s | LIVE n | DEST type rows cols freqs filetype fz0 fprecision dprecision | MAX n
  *        n of REQ: requests made; FREED: the sizes in bytes of the blocks handed to free, in call order
  *        ("-" = free(NULL)); LIVE: parser blocks still allocated after the return; MAX: most blocks live at once
  * realloc always moves the block (malloc + copy + free) so that a stale pointer is an ASan report.
@@ -196,10 +196,11 @@ int main(void)
 	rc = vnadata_fload(vdp, fp, name);
 	e = errno;
 	alarm(0);
-	printf("MEM %d %s | REQ %ld | FREED %s | LIVE %ld | MAX %ld | DEST %d %d %d %d %d\n", rc, errname(rc == -1 ? e : 0),
-		tm_requests, tm_freed_len ? tm_freed : "none", tm_live, tm_max,
+	printf("MEM %d %s | REQ %ld | FREED %s | LIVE %ld | DEST %d %d %d %d %d %d %d %d | MAX %ld\n", rc, errname(rc == -1 ? e : 0),
+		tm_requests, tm_freed_len ? tm_freed : "none", tm_live,
 		(int)vnadata_get_type(vdp), vnadata_get_rows(vdp), vnadata_get_columns(vdp),
-		vnadata_get_frequencies(vdp), (int)vnadata_get_filetype(vdp));
+		vnadata_get_frequencies(vdp), (int)vnadata_get_filetype(vdp), vnadata_has_fz0(vdp) ? 1 : 0,
+		vnadata_get_fprecision(vdp), vnadata_get_dprecision(vdp), tm_max);
 	/* the object must still be usable: read every cell, frequency and impedance, then free it */
 	{
 	    int rows = vnadata_get_rows(vdp), cols = vnadata_get_columns(vdp), nf = vnadata_get_frequencies(vdp);
